@@ -1,4 +1,4 @@
-FIX_COMMITS = ['056fe00 (C14)', '194b898 (C18)', 'e5d1f9f (C05 sweep tie-break)', 'c0a262c (C10)', '7c606c6 (C20)', 'cbc693c (C05/C06 BP-OSD)', 'a832f8b (C06 XCube)', 'a7ca295 (C05 MBP)', '0d33a68 (C12)', '7651b61 (C13)', '9f095a3 (C19)']
+FIX_COMMITS = ['056fe00 (C14)', '194b898 (C18)', 'e5d1f9f (C05 sweep tie-break)', 'c0a262c (C10)', '7c606c6 (C20)', 'cbc693c (C05/C06 BP-OSD)', 'a832f8b (C06 XCube)', 'a7ca295 (C05 MBP)', '0d33a68 (C12)', '7651b61 (C13)', '9f095a3 (C19)', '7211c70 (C15)']
 CHECKS = {
  'C14': dict(category='proof',
    text='For all (n_nodes, n_cores, n_inputs, trials, job_idx) - no bound - the body of run_parallel is executed symbolically and 10 '
@@ -125,5 +125,43 @@ CHECKS['C19'] = dict(category='other',
         'progression of read_range_input cannot be proved for all inputs: it is checked against an exact decimal oracle on a grid, and the real CLI output is read back through the simulator (bounded).',
    note='Assumed: str() of distinct bias ratios is distinct; reals for floats in the direction formula. Level "other" because the min:max:step clause is bounded only.',
    technique='string/real VCs from a symbolically executed slice of the CLI command; exact-decimal run-time oracle for the float range')
+CHECKS['C03'] = dict(category='proof',
+   text='bs_prod / _bs_prod_sparse are executed symbolically for every pair of argument classes {list-1d, list-2d, dense-1d, dense-2d, csr-2d} x dtypes {uint8, int64}, with symbolic widths '
+        'and row counts (single-row variants separately): 114 obligations - ValueError exactly on odd or unequal widths; each of the two dot products has the summand and range of one half '
+        'of the symplectic form (dot products are uninterpreted sums whose summand is checked); result = (S1+S2) mod 2 in {0,1} with the parity surviving the uint8 wrap-around; documented '
+        'output shape. Lemmas over the summand: symmetric, zero on equal arguments, additive (=> syndrome GF(2)-linear), insensitive to mod-2 reduction. pauli_string_to_bvector / '
+        'bvector_to_pauli_string by a derived append rule, with their inverse lemma. Exhaustive n <= 3 over all representation pairs, stacks to n = 600 with overlaps > 255 and all other '
+        'converters (int, sparse rows, weights) are run-time contracts.',
+   note='P*: the numpy/scipy semantics of dot, slicing, reshape, %, + and csr .data are ASSUMED contracts (monitored by the bounded layer). The sparse branch requires binary entries. '
+        'bvector_to_int / int_to_bvector / bsf_to_pauli / bsf_wt are bounded only.',
+   technique='array-domain VCs from the AST (uninterpreted bilinear sums with summand/range obligations), z3 modular arithmetic; exhaustive small-n run-time contract')
+CHECKS['C04'] = dict(category='other',
+   text='For any code (abstract H, LX, LZ of symbolic shape): in_codespace(e) <=> every <H_i,e> = 0; get_effective_error for one error = [<LZ_i,e> | <LX_i,e>] (first k bits flag X-type action); '
+        'logical_errors passes (e, logicals_x, logicals_z); is_success = in_codespace and no logical error; coset/additivity lemmas. The step from "commutes with all generators and all listed '
+        'logicals" to "is a product of generators" needs rank(H) = n-k, which is only bounded in C01 - hence level "other": that clause is decided by enumerating all 4^n residual errors on every '
+        'library code with n <= 6 (quick) / 8 against an independent GF(2) row-space membership oracle, and by structured samples on larger codes.',
+   note='Assumed: C03 (bs_prod contract), C01.logcomm, textbook symplectic linear algebra (M-sympl). Stacked (2-D) error input is bounded only.',
+   technique='composition VCs over the bs_prod contract from symbolic execution; exhaustive 4^n enumeration vs an independent GF(2) oracle')
+CHECKS['C09'] = dict(category='other',
+   text='What panqec itself contributes to minimum-weight matching is discharged deductively: the weights handed to PyMatching are the LLRs of the X-/Z-flip marginals, positive iff the marginal '
+        'is below 1/2, and the X matcher works on (Hz, X-flip weights, Z-row syndrome), the Z matcher on (Hx, Z-flip weights, X-row syndrome). Optimality of PyMatching, union-find and the sweep rule '
+        'have no contract within reach: optimality is checked against the full solution coset on 6-9 lattices x 5 noise models, and the correctable-set claims by exhaustive enumeration of all errors '
+        'of weight <= floor((d-1)/2) (matching up to 5x5 / 4x5, union-find toric L >= 3) and all single-qubit errors for the sweep-match decoders on 3x3x3.',
+   note='ASSUMED, not proved: PyMatching returns a minimum-weight solution. Level "other".',
+   technique='LLR-weight and sector-wiring VCs (shared with C07/C05); exhaustive coset / correctable-set enumeration as run-time contract')
+CHECKS['C15'] = dict(category='other',
+   text='Helper formulas are discharged from the real source: standard error, word error rate with its propagated error, count_fails = set bits of the sector block over in-codespace rows, '
+        'single_qubit_p_se holds the uncertainties (was a defect, fixed), n_trials = len(effective_error). The conservation claim itself goes through pandas groupby/aggregate/concat, which no contract '
+        'here models: it is decided by run-time contracts only - synthetic multisets of trial records written as single file, many files, gzip, zip with nested json/json.gz, merge-results output and '
+        'directory, with random splits and order, and Analysis(...) compared with independently pooled counts for every reported quantity.',
+   note='NA: pandas semantics. Level "other"; nothing about aggregate() is counted as proved.',
+   technique='formula VCs from symbolic execution; re-partitioning run-time contract over 6 container shapes')
+CHECKS['C16'] = dict(category='other',
+   text='Deductive part is small: fit_function is the documented ansatz (and equals utils.quadratic o utils.rescale_prob); the threshold entry takes median / 16% / 84% quantiles / std of column 0 '
+        'of the same bootstrap array; get_fit_status returns success only after all defect checks. Recovery of a planted threshold depends on scipy curve_fit convergence, for which no contract is '
+        'within reach: planted (p_th, nu, A, B, C) sets, 4 distances x 13 rates, rows and files permuted, must be recovered within tolerance, inside the reported CI and the data range, identically '
+        'under permutation (deterministic: the bootstrap RNG is seeded in the code).',
+   note='NA: optimiser convergence/accuracy. Level "other"; the headline claim rests on bounded runs only.',
+   technique='formula / structural obligations on the AST; planted-parameter run-time contract')
 _PENDING = 'check under construction in this session (contract-based check planned in DESIGN.md section 3); not claimed until its command exists'
 NOT_APPLICABLE = {p: _PENDING for p in ['C%02d' % i for i in range(1, 21)]}
